@@ -49,7 +49,10 @@ READ_EXT = {'ds9': ['.ds9', '.reg'], 'crtf': ['.crtf'],
 BAD_OPTIONS = {'ds9': [{'precision': 'x'}, {'precision': -3}, {'nonsense': 1}],
                'crtf': [{'coordsys': 'nonsense'}, {'radunit': 'arcsec'},
                         {'fmt': 'zz'}, {'nonsense': 1}],
-               'fits': [{'header': 'not-a-header'}, {'nonsense': 1}]}
+               # '@unverifiable': a Header object that constructs but fails
+               # FITS verification - the write fails LATE, inside writeto
+               'fits': [{'header': 'not-a-header'}, {'nonsense': 1},
+                        {'header': '@unverifiable'}]}
 DEST = ['absent', 'file', 'symlink', 'dangling']
 
 
@@ -174,6 +177,11 @@ class Matrix(Relation):
                 R.PixCoord(3, 4), 2, 5, 1, 4))
         elif kind == 'option':
             kw = dict(arg)
+            if kw.get('header') == '@unverifiable':
+                from astropy.io import fits
+                kw['header'] = fits.Header.fromstring(
+                    "EXTNAME = 'REGION'".ljust(80)
+                    + 'FOO     = 1.0 E5'.ljust(80))
         if fmt == 'crtf' and 'coordsys' not in kw:
             kw['coordsys'] = 'image'
         single = cell_no % 3 == 0 and len(regs) == 1
